@@ -705,6 +705,19 @@ class NetCDFWrite(IOWrite):
             if not ncvar.startswith(groups):
                 create = True
 
+        if already_in_file and not create:
+            # The equal dimension coordinate that is already in the
+            # file may belong to a different domain axis of this
+            # field or domain, in which case its netCDF dimension can
+            # not be used again: two domain axes of one construct are
+            # two netCDF dimensions.
+            if seen[id(coord)]["ncdims"][0] in [
+                ncdim0
+                for axis0, ncdim0 in g["axis_to_ncdim"].items()
+                if axis0 != axis
+            ]:
+                create = True
+
         if create:
             if (
                 ncdim is not None
